@@ -385,6 +385,61 @@ def work_readonly(chunk):
     return acc
 
 
+# ---------------------------------------------------------------------------------------------
+# narrow g: g(z) = exp(-((z - z0)/sigma)^2) cos(z - z0), g(z0) = 1, sigma down to 2e-5.  At the largest steps g
+# underflows to exactly 0, so the first extrapolated rows are identically 0 (and agree with each other perfectly);
+# the reported estimate must still cover the error of whatever is returned.
+
+NARROW_SIGMAS = [3e-3, 1e-3, 1e-4, 2e-5]
+NARROW_Z0 = [0.0, 0.3, -2.0, 0.3 + 0.4j]
+NARROW_KERNELS = ['sin(w)/w', 'expm1(w)/w', 'w/sin(w)']
+NARROW_OPTS = [dict()] + [dict(step_ratio=r, order=o) for r in (2, 3, 4) for o in (1, 2, 3, 4)]
+
+
+def work_narrow(chunk):
+    from numdifftools.limits import Limit, Residue
+    acc = fw.Acc()
+    K1 = float(cm.ENV['C18']['K1'])
+    K2 = float(cm.ENV['C18']['K2'])
+    for kind, sigma, z0, kname, method, oi in chunk:
+        opts = NARROW_OPTS[oi]
+
+        def g(z):
+            return np.exp(-((z - z0) / sigma) ** 2) * np.cos(z - z0)
+        case = ('narrow', kind, sigma, z0, kname, method, oi)
+        jc = dict(kind='narrow', entry=kind, sigma=sigma, z0=z0, kernel=kname, method=method, opts=oi)
+        cell = ['narrow/%s' % kind, 'narrow/sigma=%g' % sigma]
+        try:
+            with warnings.catch_warnings():
+                warnings.simplefilter('ignore')
+                with np.errstate(all='ignore'):
+                    if kind == 'limit':
+                        s_ = KERNELS[kname]
+                        val, info = Limit(lambda z: g(z) * s_(z - z0), full_output=True, method=method, **opts)(z0)
+                    else:
+                        pp = int(kname)
+                        val, info = Residue(lambda z: g(z) / (z - z0) ** pp, pole_order=pp, full_output=True, method=method,
+                                            **dict(opts, order=opts.get('order', 1) + pp) if opts else {})(z0)
+        except Exception as e:          # noqa: BLE001
+            acc.case(case, nontrivial=True, cell=cell, outcome='raised')
+            acc.violation('C18:%s:raised-%s:narrow-g' % (kind, type(e).__name__), jc, '%s: %s' % (type(e).__name__, e), rank=oi)
+            continue
+        err, est, prob = judge(val, info, 1.0)
+        if prob:
+            acc.case(case, nontrivial=True, cell=cell, outcome=prob[0])
+            acc.violation('C18:%s:%s:narrow-g' % (kind, prob[0]), jc, prob[1], rank=oi)
+            continue
+        ok = err <= K1 * est + K2 * EPS * 2.0
+        acc.case(case, nontrivial=True, cell=cell, outcome=ok)
+        if not ok:
+            acc.violation('C18:%s:dishonest:narrow-g' % ('Limit' if kind == 'limit' else 'Residue'), jc,
+                          '%s with g(z) = exp(-((z - z0)/%g)^2) cos(z - z0), %s, z0=%r, method=%s, options %r: value %r, g(z0) = 1: '
+                          'error %.3g > K1=%g x estimate %.3g + floor %.3g'
+                          % (kind, sigma, ('kernel ' + kname) if kind == 'limit' else ('pole of order ' + kname), z0, method, opts,
+                             val, err, K1, est, K2 * EPS * 2.0), rank=oi)
+    return acc
+
+
 def _mp_kernel(kname, w):
     return {'sin(w)/w': lambda w: mp.sin(w) / w, 'expm1(w)/w': lambda w: mp.expm1(w) / w,
             'log1p(w)/w': lambda w: mp.log1p(w) / w, 'w/sin(w)': lambda w: w / mp.sin(w),
@@ -427,12 +482,17 @@ def run(ctx):
     ro = [(kind, g, pp, z0, m, pth) for kind in ('limit', 'residue') for g in gsel[:1] for pp in ((1,) if kind == 'limit' else (1, 2, 3))
           for z0 in z0s[:2] for m in METHODS for pth in PATHS]
     acc.merge(ctx.pmap(work_readonly, ro, chunk=8))
+    nj = [('limit', sg, z0, k, m, oi) for sg in NARROW_SIGMAS for z0 in NARROW_Z0 for k in NARROW_KERNELS for m in METHODS
+          for oi in range(len(NARROW_OPTS))]
+    nj += [('residue', sg, z0, str(pp), m, oi) for sg in NARROW_SIGMAS for z0 in NARROW_Z0[:2] for pp in (1, 2, 3) for m in METHODS
+           for oi in (0, 1, 2, 5)]
+    acc.merge(ctx.pmap(work_narrow, nj, chunk=20))
     for j in jobs[:2] + jobs[len(jobs) // 2:len(jobs) // 2 + 2]:
         acc.sample(dict(kind=j[0], g=j[1], kernel_or_pole=j[2], z0=j[3], method=j[4], path=j[5], order=j[6], step_ratio=j[7]))
     acc.sample(dict(kind='array', pattern='SRS', meaning='singular, regular, singular point in one call'))
     req = ['limit/%s/%s' % (k, p) for k in ks for p in PATHS] + ['residue/pole%d/%s' % (pp, p) for pp in (1, 2, 3) for p in PATHS]
     req += ['array2/layout-2d-F', 'array2/layout-2d-T', 'residue-array/layout-2d-F', 'residue-array/layout-2d-T', 'residue-array/pole3']
-    req += ['readonly/limit', 'readonly/residue']
+    req += ['readonly/limit', 'readonly/residue', 'narrow/limit', 'narrow/residue'] + ['narrow/sigma=%g' % sg for sg in NARROW_SIGMAS]
     req += ['limit/complex-z0', 'limit/real-z0', 'limit/below', 'limit/above', 'array/SRS', 'array/RS', 'array2/RAB', 'array2/ARBR']
     rule = ('full product %d g x %d kernels x %d z0 (real and complex) x {above, below} x {radial, spiral} x order 1..8 x '
             'step_ratio {2,4,8,16} on the real Limit; Residue with poles of order 1..3, orders p+1..p+4; every S/R pattern '
@@ -451,6 +511,8 @@ def replay(case):
     if case['kind'] == 'array2':
         a = work_arrays2([(case['g'], case['k1'], case['k2'], z0, case['pattern'], case['method'], case['path'],
                            case.get('layout', '1d'))])
+    elif case['kind'] == 'narrow':
+        a = work_narrow([(case['entry'], case['sigma'], z0, case['kernel'], case['method'], case['opts'])])
     elif case['kind'] == 'readonly':
         a = work_readonly([(case['entry'], case['g'], case['p'], z0, case['method'], case['path'])])
     elif case['kind'] == 'residue-array':
